@@ -186,6 +186,64 @@ def extra_stages(tier, seed, scratch, total, notes):
     t = runner.run_units_with(__name__, sub, binary, os.path.join(scratch, "asan"), seed + 1000, 'quick', env=env)
     notes.append({"stage": "asan", "build": note, "units": len(sub), "executions": t.evaluations,
                   "sanitizer_reports": sum(1 for v in t.violations if 'Sanitizer' in v["sig"][2]),
-                  "statement": "no AddressSanitizer report on these executions (not a proof of memory safety)"})
+                  "statement": "no AddressSanitizer report on these executions (not a proof of memory safety)" if not any('Sanitizer' in v["sig"][2] for v in t.violations) else "AddressSanitizer reported (see violations)"})
     t.observed = {"asan:" + k: v for k, v in t.observed.items() if not isinstance(v, set)}
     total.merge(t)
+    # --- Miri: the direct Value operators on a sample of pool pairs (no parsing involved)
+    try:
+        runner._alt_repo()
+        from concurrent.futures import ProcessPoolExecutor
+        rng = rng_for(seed, 'C02', 'miri')
+        jobs = []
+        for m in range(8):
+            cases = []
+            for _ in range(160):
+                a, b = rng.choice(POOL), rng.choice(POOL)
+                cases.append({"id": len(cases), "op": "valueop", "a": to_json(a), "b": to_json(b)})
+            jobs.append((cases, os.path.join(scratch, "miri%d" % m), 1 + m, runner.HARNESS, runner.TARGET + "-miri"))
+        import time as _t
+        t0 = _t.time()
+        results = [_miri_valueops(jobs[0])]
+        with ProcessPoolExecutor(max_workers=7) as ex:
+            results += list(ex.map(_miri_valueops, jobs[1:]))
+        mt = runner.UnitResult()
+        for r in results:
+            mt.merge(r)
+        notes.append({"stage": "miri", "processes": len(jobs), "value_pairs": sum(len(j[0]) for j in jobs), "operator_calls": mt.evaluations * 12,
+                      "wall_s": round(_t.time() - t0, 1), "reports": len(mt.violations), "inconclusive": mt.inconclusive[:3],
+                      "statement": "no undefined behaviour reported by Miri on these direct Value operator calls" if not mt.violations else "Miri reported (see violations)"})
+        mt.observed = {"miri:" + k: v for k, v in mt.observed.items() if not isinstance(v, set)}
+        total.merge(mt)
+    except runner.Inconclusive as e:
+        notes.append({"stage": "miri", "result": "inconclusive (toolchain): " + str(e)[:300]})
+
+
+def _miri_valueops(args):
+    import runner
+    cases, scratch, mseed, harness, tdir = args
+    env = runner.cargo_env()
+    env["MIRIFLAGS"] = "-Zmiri-disable-isolation -Zmiri-seed=%d" % mseed
+    drv = runner.Driver(None, scratch, env=env, wrapper=["cargo", "+nightly", "miri", "run", "--offline", "--target-dir", tdir, "--"], cwd=harness)
+    res = runner.UnitResult()
+    try:
+        out = drv.run(cases, "miri", watchdog=1500)
+    except runner.Inconclusive as e:
+        res.inconclusive.append("miri: " + str(e)[:300])
+        return res
+    for c, r in zip(cases, out):
+        res.evaluations += 1
+        res.nt("miri|" + str(c["a"]) + "|" + str(c["b"]))
+        if not isinstance(r, dict) or 'add' not in r:
+            o = outcome(r)
+            if is_crash(o):
+                res.violation(o[0], 'direct Value operator (Miri)', crash_sig(o), c, observed=list(o)[:2] + [str(o[2:])[:600]])
+            else:
+                res.inconclusive.append("miri record: " + str(r)[:120])
+            continue
+        for op in VALUE_OPS:
+            x = r.get(op)
+            res.count("valueop:" + op)
+            if isinstance(x, dict) and 'panic' in x:
+                res.violation('panic', 'direct Value operator ' + op, crash_sig(outcome(x)), c, observed=x)
+    res.inconclusive.extend(drv.inconclusive)
+    return res
